@@ -294,4 +294,137 @@ theorem idle_not_holds {p : Prog} (hp : okProg p = true) {s : St} {t : Tid} (h :
       simpa using hok
     next hr => simp [H, hr]
 
+/-! ### the wait-group invariant -/
+
+theorem wg_step {p : Prog} (hp : okProgWg p = true) {s s' : St} {t : Tid} {c : Bool}
+    (htr : Tracks (W p) s.pc s.wg) (hs : step p s t c = some s') : Tracks (W p) s'.pc s'.wg := by
+  unfold step at hs
+  split at hs
+  next r hr =>
+    have hok := okProgWg_row hp hr
+    have hW := W_of_row hr
+    unfold okRowWg at hok
+    unfold exec at hs
+    split at hs
+    -- acquire
+    · next hi' =>
+      rw [hi'] at hok; simp only [beq_iff_eq] at hok
+      split at hs
+      · injection hs with hs; subst hs
+        exact tracks_keep htr t _ (by rw [hW, hok])
+      · cases hs
+    -- tryAcquire
+    · next els hi' =>
+      rw [hi'] at hok; simp only [Bool.and_eq_true, beq_iff_eq] at hok
+      split at hs
+      · injection hs with hs; subst hs
+        exact tracks_keep htr t _ (by rw [hW, hok.1])
+      · injection hs with hs; subst hs
+        exact tracks_keep htr t _ (by rw [hW, hok.2])
+    -- release
+    · next hi' =>
+      rw [hi'] at hok; simp only [beq_iff_eq] at hok
+      split at hs
+      · injection hs with hs; subst hs
+        exact tracks_keep htr t _ (by rw [hW, hok])
+      · cases hs
+    -- tryRelease
+    · next hi' =>
+      rw [hi'] at hok; simp only [beq_iff_eq] at hok
+      split at hs
+      · injection hs with hs; subst hs
+        exact tracks_keep htr t _ (by rw [hW, hok])
+      · injection hs with hs; subst hs
+        exact tracks_keep htr t _ (by rw [hW, hok])
+    -- wgAdd
+    · next hi' =>
+      rw [hi'] at hok; simp only [Bool.and_eq_true, Bool.not_eq_true'] at hok
+      injection hs with hs; subst hs
+      exact tracks_gain htr t _ (by rw [hW]; exact hok.1) hok.2
+    -- wgDone
+    · next hi' =>
+      rw [hi'] at hok; simp only [Bool.and_eq_true, Bool.not_eq_true'] at hok
+      injection hs with hs; subst hs
+      exact (tracks_lose htr t (s.pc t + 1) (by rw [hW]; exact hok.1) hok.2).2
+    -- wgWait
+    · next hi' =>
+      rw [hi'] at hok; simp only [Bool.and_eq_true, Bool.not_eq_true'] at hok
+      split at hs
+      · injection hs with hs; subst hs
+        exact tracks_keep htr t _ (by rw [hW, hok.1, hok.2])
+      · cases hs
+    -- user
+    · next onP hi' =>
+      rw [hi'] at hok; simp only [Bool.and_eq_true, beq_iff_eq] at hok
+      injection hs with hs; subst hs
+      refine tracks_keep htr t _ ?_
+      rw [hW]
+      cases c
+      · simpa using hok.1
+      · simpa using hok.2
+    -- nop
+    · next hi' =>
+      rw [hi'] at hok; simp only [beq_iff_eq] at hok
+      injection hs with hs; subst hs
+      exact tracks_keep htr t _ (by rw [hW, hok])
+    -- goto
+    · next q hi' =>
+      rw [hi'] at hok; simp only [beq_iff_eq] at hok
+      injection hs with hs; subst hs
+      exact tracks_keep htr t _ (by rw [hW, hok])
+    -- branch
+    · next a b hi' =>
+      rw [hi'] at hok; simp only [Bool.and_eq_true, beq_iff_eq] at hok
+      injection hs with hs; subst hs
+      refine tracks_keep htr t _ ?_
+      rw [hW]
+      cases c
+      · simpa using hok.2
+      · simpa using hok.1
+    -- halt
+    · cases hs
+  next => cases hs
+
+theorem reach_wg {p : Prog} (hp : okProgWg p = true) {n : Nat} {s : St} (h : Reach p n s) :
+    Tracks (W p) s.pc s.wg := by
+  induction h with
+  | init =>
+    refine ⟨[], List.nodup_nil, ?_, rfl⟩
+    intro t
+    simp [St.init, okProgWg_zero hp]
+  | step t c _ hs ih => exact wg_step hp ih hs
+
+theorem holds_imp_inWg {p : Prog} (hp : holdsWithinWg p = true) (q : Nat) (h : H p q = true) : W p q = true := by
+  unfold H at h
+  unfold W
+  split at h
+  next r hr =>
+    unfold holdsWithinWg at hp
+    simp only [List.all_eq_true, Bool.or_eq_true, Bool.not_eq_true'] at hp
+    have hm : r ∈ p := List.mem_of_getElem? hr
+    rcases hp r hm with h' | h'
+    · rw [h] at h'; cases h'
+    · exact h'
+  next => cases h
+
+/-! ### schedules as lists (to exhibit concrete reachable states) -/
+
+def runSched (p : Prog) (s : St) : List (Tid × Bool) → Option St
+  | [] => some s
+  | (t, c) :: rest =>
+    match step p s t c with
+    | some s' => runSched p s' rest
+    | none => none
+
+theorem reach_runSched {p : Prog} {n : Nat} {s s' : St} (h : Reach p n s) (l : List (Tid × Bool))
+    (hr : runSched p s l = some s') : Reach p n s' := by
+  induction l generalizing s with
+  | nil => simp only [runSched] at hr; injection hr with hr; subst hr; exact h
+  | cons a rest ih =>
+    obtain ⟨t, c⟩ := a
+    simp only [runSched] at hr
+    split at hr
+    next s1 hs1 => exact ih (Reach.step t c h hs1) hr
+    next => cases hr
+
 end GoZero.C05
